@@ -16,7 +16,13 @@ class ExtExc(External):
 
 class StandIn:
     def __init__(self, prog, check_condition="fork", device_bytes=None, close_fails="never", stat_fails="never",
-                 other_sgio_error="never", replug="fork", fill_limit=128, maybe_missing=()):
+                 other_sgio_error="never", replug="fork", fill_limit=128, maybe_missing=(), open_fails="never", node_model=False):
+        # node_model: the device node has an identity (a generation counter the scenario driver bumps between commands);
+        # stat results and handles remember the generation they saw, inode comparisons are concrete
+        self.open_fails = open_fails
+        self.node_model = node_model
+        self.node_gen = 0
+        self.closed = set()
         # maybe_missing: attribute names of binding objects that the analysed code itself expects to be absent
         # sometimes (it reads them under `except AttributeError`): reading one forks on "absent"
         self.maybe_missing = set(maybe_missing)
@@ -78,11 +84,16 @@ class StandIn:
                 # python's open(): a mode that does not create fails on a missing node
                 raise PyRaise(ExtExc("FileNotFoundError", ("FileNotFoundError", "OSError", "Exception", "BaseException")),
                               node, frame.where(node))
+            if self.open_fails == "fork" and I.decide("open() raises PermissionError", node, frame):
+                raise PyRaise(ExtExc("PermissionError", ("PermissionError", "OSError", "Exception", "BaseException")), node, frame.where(node))
             self.counter += 1
             h = External("file-handle#%d" % self.counter)
             h.created_missing_node = bool(self.vanished)
+            if self.node_model:
+                h.opened_on_gen = self.node_gen
             return h
         if name.startswith("file-handle") and name.endswith(".close"):
+            self.closed.add(name[:-len(".close")])
             if self.close_fails == "fork" and I.decide("file.close() raises OSError", node, frame):
                 raise PyRaise(ExtExc("OSError", ("OSError", "Exception", "BaseException")), node, frame.where(node))
             return None
@@ -92,5 +103,8 @@ class StandIn:
                 raise PyRaise(ExtExc("FileNotFoundError", ("FileNotFoundError", "OSError", "Exception", "BaseException")),
                               node, frame.where(node))
             self.counter += 1
-            return External("stat#%d" % self.counter)
+            st = External("stat#%d" % self.counter)
+            if self.node_model:
+                st.inode_gen = self.node_gen        # (the scenario driver replaces the node between commands)
+            return st
         return None
